@@ -19,7 +19,7 @@ use crate::fsmodel::Ev;
 use crate::proc::{err_path, run_worker, Script, ShimMode};
 use crate::seq::Cfg;
 
-pub const C11_RULE: &str = "race plans: 2-6 contenders (each a thread of the harness or a separate process), start offsets 0-2000 us after a common barrier, hold times 0-20 ms, on a fresh or a populated directory (un-checkpointed WAL tail, so a loser that got as far as loading the index would visibly checkpoint). some contenders pass a different num_ops_per_wal. Oracle (1): every open returns Ok or exactly AlreadyOpened (a contender whose num_ops_per_wal differs from the recorded one may also be refused by the settings check; a winner always has the recorded value); the CLOCK_MONOTONIC intervals [after open returned, before drop] of the successful opens are pairwise disjoint (recorded intervals lie inside the true holding intervals, so overlap means two live handles). (2) with an idle owner alive, a losing open traced by the LD_PRELOAD shim performs no successful mutating filesystem call under the root except opening LOCK, and the directory is byte-for-byte identical before/after. (3) while a clone or an OrphanStats of the owner lives, open fails; after the last one is dropped, or the owner process is killed with SIGKILL, the next open succeeds and shows the model state. non-trivial = plan in which >=2 open calls overlapped in time (measured), or a kill / clone / traced-loser scenario; distinct by plan hash";
+pub const C11_RULE: &str = "race plans: 2-6 contenders (each a thread of the harness or a separate process), start offsets 0-2000 us after a common barrier, hold times 0-20 ms, on a fresh or a populated directory (un-checkpointed WAL tail, so a loser that got as far as loading the index would visibly checkpoint). some contenders pass a different num_ops_per_wal. Oracle (1): every open returns Ok or exactly AlreadyOpened (a contender whose num_ops_per_wal differs from the recorded one may also be refused by the settings check; a winner always has the recorded value); the CLOCK_MONOTONIC intervals [after open returned, before drop] of the successful opens are pairwise disjoint (recorded intervals lie inside the true holding intervals, so overlap means two live handles). (2) with an idle owner alive, a losing open traced by the LD_PRELOAD shim performs no successful mutating filesystem call under the root except opening LOCK, and the directory is byte-for-byte identical before/after. (3) while a clone or an OrphanStats of the owner lives, open fails; after the last one is dropped, or the owner process is killed with SIGKILL, the next open succeeds and shows the model state. (4) an owning process that started (fork+exec) an unrelated child while holding the directory drops its handle and exits, or is killed; the next open succeeds although the child is still running. non-trivial = plan in which >=2 open calls overlapped in time (measured), or a kill / clone / traced-loser / surviving-child scenario; distinct by plan hash";
 
 #[derive(Clone, Debug, Serialize, Deserialize)]
 pub enum Scenario {
@@ -27,6 +27,9 @@ pub enum Scenario {
     IdleOwnerLoser,
     CloneOutlives { orphan_stats: bool },
     KillOwner,
+    /// the owning process starts (fork+exec) an unrelated long-lived child while it holds the directory, then
+    /// drops the handle and exits (`kill` = false) or is killed (`kill` = true); the child outlives it
+    OwnerSpawnsChild { kill: bool },
 }
 
 #[derive(Clone, Debug, Serialize, Deserialize)]
@@ -125,6 +128,28 @@ pub fn lockprobe_main(args: &[String]) -> i32 {
             Ok(_) => 0,
             Err(_) => 9,
         };
+    }
+    if args[0] == "sleep" {
+        std::thread::sleep(Duration::from_millis(args[1].parse().unwrap_or(0)));
+        return 0;
+    }
+    if args[0] == "ownchild" {
+        // ownchild <root> <out> <child_ms> <stay>
+        let cas = match Cas::<String>::open(Path::new(&args[1]), cfg()) {
+            Ok(c) => c,
+            Err(_) => return 9,
+        };
+        let exe = std::env::current_exe().expect("harness: current_exe");
+        // this process is single-threaded: spawn returns once the child has exec'ed
+        let child = std::process::Command::new(exe).arg("lockprobe").arg("sleep").arg(&args[3]).stdin(std::process::Stdio::null()).stdout(std::process::Stdio::null()).stderr(std::process::Stdio::null()).spawn().expect("harness: spawn sleeper");
+        let tmp = format!("{}.tmp", args[2]);
+        std::fs::write(&tmp, child.id().to_string()).expect("harness: write pid");
+        std::fs::rename(&tmp, &args[2]).expect("harness: rename pid");
+        if args[4] == "1" {
+            std::thread::sleep(Duration::from_secs(120));
+        }
+        drop(cas);
+        return 0;
     }
     let root = PathBuf::from(&args[0]);
     let start_at: u64 = args[1].parse().unwrap_or(0);
@@ -432,6 +457,65 @@ fn c11_run(plan: &Plan) -> R<CaseMeta> {
             m.class("owner_killed");
             m.nontrivial.push(id);
         }
+        Scenario::OwnerSpawnsChild { kill } => {
+            let out = scratch.path.join("ownchild.pid");
+            let exe = std::env::current_exe().expect("harness: current_exe");
+            let mut owner = {
+                let _gate = gate_write();
+                std::process::Command::new(exe).arg("lockprobe").arg("ownchild").arg(&db).arg(&out).arg("20000").arg(if *kill { "1" } else { "0" }).stdin(std::process::Stdio::null()).stdout(std::process::Stdio::null()).stderr(std::process::Stdio::null()).spawn().expect("harness: spawn ownchild")
+            };
+            let _gate = gate_read();
+            let mut pid: i32 = 0;
+            for _ in 0..5000 {
+                if let Ok(b) = std::fs::read(&out) {
+                    pid = String::from_utf8_lossy(&b).trim().parse().unwrap_or(0);
+                    break;
+                }
+                if let Ok(Some(_)) = owner.try_wait() {
+                    if !out.exists() {
+                        break;
+                    }
+                }
+                std::thread::sleep(Duration::from_millis(2));
+            }
+            if pid <= 0 {
+                let _ = owner.kill();
+                let _ = owner.wait();
+                m.discarded = true;
+                return Ok(m);
+            }
+            let reap = |pid: i32| unsafe {
+                libc::kill(pid, libc::SIGKILL);
+            };
+            if *kill {
+                match Cas::<String>::open(&db, cfg()) {
+                    Err(LibError::AlreadyOpened) => {}
+                    Ok(_) => {
+                        reap(pid);
+                        let _ = owner.kill();
+                        let _ = owner.wait();
+                        fail!("exclusive/two-live-handles", "open succeeded while another process owned the directory");
+                    }
+                    Err(e) => {
+                        reap(pid);
+                        let _ = owner.kill();
+                        let _ = owner.wait();
+                        fail!(format!("exclusive/wrong-error/{}", err_path(&e)), "open failed with {e:?} instead of AlreadyOpened");
+                    }
+                }
+                unsafe { libc::kill(owner.id() as i32, libc::SIGKILL) };
+            }
+            let _ = owner.wait();
+            // the owner is gone (dropped its handle and exited, or was killed); the process it started lives on
+            let alive = unsafe { libc::kill(pid, 0) } == 0;
+            let r = check_final(&db, &model, if *kill { "after the owner process was killed (a child process it had started is still running)" } else { "after the owner dropped its handle and exited (a child process it had started is still running)" });
+            reap(pid);
+            r?;
+            if alive {
+                m.class("owner_child_outlives");
+                m.nontrivial.push(id);
+            }
+        }
     }
     m.class(if plan.populated { "populated" } else { "fresh" });
     Ok(m)
@@ -442,7 +526,7 @@ pub fn run_c11(ctx: &Ctx, acc: &Mutex<Acc>) -> Option<Violation> {
     let strat = || {
         (
             any::<bool>(),
-            prop_oneof![6 => Just(Scenario::Race), 2 => Just(Scenario::IdleOwnerLoser), 2 => any::<bool>().prop_map(|o| Scenario::CloneOutlives { orphan_stats: o }), 1 => Just(Scenario::KillOwner)],
+            prop_oneof![6 => Just(Scenario::Race), 2 => Just(Scenario::IdleOwnerLoser), 2 => any::<bool>().prop_map(|o| Scenario::CloneOutlives { orphan_stats: o }), 1 => Just(Scenario::KillOwner), 2 => any::<bool>().prop_map(|k| Scenario::OwnerSpawnsChild { kill: k })],
             vec((prop::bool::weighted(0.4), prop_oneof![3 => 0u16..50, 2 => 0u16..2000], 0u8..20), 2..6),
             vec(prop::bool::weighted(0.3), 6),
         )
